@@ -88,9 +88,15 @@ pub fn authentic(
     let cert_b = m.get("CERT").ok_or("decode")?;
     let indx = m.get("INDX").ok_or("decode")?;
     let w = v.node_width();
-    if sig.len() != 64 || indx.len() != 4 || path.len() % w != 0 {
+    // INDX, PATH and SIG lie outside the signed part. The C01 statement asks for a Merkle proof that
+    // binds the request, not for a canonical INDX encoding: in the client view an INDX longer than
+    // 4 bytes (e.g. a datagram extended with trailing bytes, which land in the last field) is read
+    // as its first 4 bytes. The server view (C02: "well-formed response") stays strict.
+    let indx_ok = if mode.server_extras { indx.len() == 4 } else { indx.len() >= 4 };
+    if sig.len() != 64 || !indx_ok || path.len() % w != 0 {
         return Err("decode");
     }
+    let indx = &indx[..4];
     // 3. srep
     let srep = decode(srep_b).map_err(|_| "decode-srep")?;
     let midp = srep.get("MIDP").ok_or("decode-srep")?;
